@@ -195,6 +195,35 @@ def rule_import_removal_owner(ctx, rep):
                       f"`{e.text[:60]}` rewrites/removes an import statement directly; only {sorted(x.split('.')[-1] for x in IMPORT_REMOVAL_OWNERS)} may do that "
                       "(others must use remove_unused_import*, which keeps imports that are still used)",
                       reason=IMPORT_REMOVAL_OWNERS.get(owner_cls))
+    # owner-specific witness: the unused-import remover drops exactly the gathered (alias node, import node) pairs
+    ru = ctx.prog.cls("codemodder.codemods.transformations.remove_unused_imports.RemoveUnusedImportsTransformer")
+    m = ru.methods.get("leave_import_alike")
+    ok = False
+    why = "leave_import_alike vanished"
+    if m is not None:
+        orig = m.positional_params()[1] if len(m.positional_params()) > 1 else "original_node"
+        why = "no filter of original_node.names by membership of (alias, original_node) in self.unused_imports"
+        for comp in walk_no_nested(m.node):
+            if isinstance(comp, ast.ListComp) and unparse(comp.generators[0].iter) == f"{orig}.names" and isinstance(comp.generators[0].target, ast.Name):
+                var = comp.generators[0].target.id
+                for cond in comp.generators[0].ifs:
+                    if (
+                        isinstance(cond, ast.Compare) and isinstance(cond.ops[0], ast.NotIn) and isinstance(cond.left, ast.Tuple)
+                        and [unparse(e) for e in cond.left.elts] == [var, orig] and unparse(cond.comparators[0]) == "self.unused_imports"
+                    ):
+                        ok = True
+    rep.check("R-IMPORT-REMOVAL-OWNER", ru.qname, (m or ru).loc(), ok, "identity-of-gathered-pairs",
+              f"{why}: deciding by name/module instead of by the gathered node pairs removes a *used* import that merely looks like an unused one "
+              "(e.g. module-level `import json` used, function-level `import json` unused)")
+    giv_users = [
+        fn for fn in ctx.prog.functions.values()
+        if any(isinstance(c, ast.Call) and last_attr(c.func) == "RemoveUnusedImportsTransformer" for c in walk_no_nested(fn.node))
+    ]
+    for fn in giv_users:
+        txt = unparse(fn.node)
+        fed = "GatherUnusedImportsVisitor" in txt
+        rep.check("R-IMPORT-REMOVAL-OWNER", fn.qname, fn.loc(), fed, "fed-by-gatherer",
+                  "RemoveUnusedImportsTransformer is constructed from something other than libcst's GatherUnusedImportsVisitor results")
     # the libcst-checked removal API is what everybody else uses
     users = 0
     for fn in ctx.prog.functions.values():
